@@ -363,6 +363,25 @@ def r08_4(ctx):
     ctx.decide('R08.4', up.qual, 'parameters are written to their constant_info slot', ok, up.node)
     ok = "self.update_params({prms})" in src(gi.node)
     ctx.decide('R08.4', gi.qual, '__init__ sets parameters through update_params', ok, gi.node, 'construction and update share one code path for parameters')
+    # the constants array (parameters, precomputed constants, Jac_to_boundary) is allocated once, by __init__: an emitted
+    # `self.constants = ...` in any other generated method throws away every slot that method does not rewrite
+    import re as _re
+    alloc = []
+    for f_ in ctx.prog.funcs_in(CG, include_nested=False):
+        if f_.cls is None or f_.cls.name != 'AsmGenerator':
+            continue
+        for c in ast.walk(f_.node):
+            if isinstance(c, ast.Call) and isinstance(c.func, ast.Attribute) and c.func.attr in ('put', 'putf') and c.args \
+                    and isinstance(c.args[0], ast.Constant) and isinstance(c.args[0].value, str) \
+                    and _re.match(r'^\s*self\.constants\s*=[^=]', c.args[0].value):
+                alloc.append((f_, c))
+    ctx.floor('R08.4', 'emitted allocations of self.constants', len(alloc), 1)
+    for f_, c in alloc:
+        ok = f_.name == 'generate_init'
+        ctx.decide('R08.4', f_.qual, 'emits `%s`' % c.args[0].value.strip(), ok, c,
+                   'the constants array is allocated by the generated __init__ only' if ok else
+                   'the generated %s re-allocates self.constants: every parameter not passed in that call, every precomputed constant and '
+                   'Jac_to_boundary become 0, so updating no longer equals constructing afresh' % f_.name.replace('generate_', ''), definite=True)
 
 
 # ------------------------------------------------------------------ R08.5
